@@ -57,6 +57,7 @@ class Opts:
         self.p_priv = 0.25
         self.p_flags = 0.3
         self.p_singleton = 0.15
+        self.p_noncopy_singleton = 0.0   # probability that a NON-copyable enum may be a singleton as well (emitted, but not valid Rust: C13 finding)
         self.p_explicit_addr = 0.3
         self.p_gap = 0.2
         self.p_size_attr = 0.4
@@ -238,7 +239,7 @@ class WorldGen:
         if copyable: at.append(a_ident('copyable'))
         elif cloneable: at.append(a_ident('cloneable'))
         if defaultable: at.append(a_ident('defaultable'))
-        if copyable and rng.random() < o.p_singleton:
+        if (copyable or (o.p_noncopy_singleton > 0 and rng.random() < o.p_noncopy_singleton)) and rng.random() < o.p_singleton:
             at.append(a_int('singleton', self.next_addr()))
         pub = rng.random() > (o.p_priv if o.p_priv_item is None else o.p_priv_item)
         m.defs.append(enum_def(pub, name, ty_id(base), at, stmts))
@@ -385,6 +386,9 @@ class WorldGen:
                 explicit = False; A = ps; pad = (-off) % A
             elif miss == 'bigger-align-no-size':
                 A = maxal * 2; explicit = True; pad = 0
+            if miss in ('size-not-multiple', 'bigger-align-no-size') and rng.random() < 0.5:
+                # the same near-miss with the (wrong) size spelled out: a declared size is not exempt from the check
+                at.append(a_int('size', off))
             if pad or (rng.random() < o.p_size_attr and miss is None):
                 if nregions + (1 if pad else 0) != nregions and not explicit and nregions in (0, 1) and miss is None:
                     # tail padding changes the region count and with it the default alignment
